@@ -253,7 +253,7 @@ def pairOk (cSend : Option Enc) (cAccept sAccept sSend : List Enc) (shape : Shap
   else
     so.called && so.saw == List.replicate (if shape.singleRequest then 1 else k) (.ok .raw) &&
     (match h with
-     | .fail c => co.result == [.err c .handler]
+     | .fail c => c == 0 || co.result == [.err c .handler]
      | .reply n _ _ =>
        so.enc == ((pairResponseEnc cAccept sSend).map name).toList &&
        so.frames.all (frameOk so.enc) &&
